@@ -21,6 +21,7 @@ G: one REPLAY line per abstract event with the predicted abstract records; the h
 """
 import json
 import os
+import re
 import shutil
 
 import vlib
@@ -30,13 +31,17 @@ def _sig(m):
     s = m["detail"].get("sig", m["what"])
     if s.startswith("dup-attr-key") and "f17=true" in s:
         return "C13:F17:" + s
+    # third-party sval_json writes unbalanced JSON for a map whose key is Some(_) and whose value holds a
+    # Some(_) (`{"5":{"Some":2}`): the default file writer passes it on as a mangled line
+    if s.startswith("file-invalid-json") and re.search(r"MapKey\.OptKey\.[^,\]]*(Some|Struct)", s):
+        return "C13:SVALJSON-OPTKEY:" + s
     return "C13:" + s
 
 
 def run(ctx):
     ctx.level = "exploration"
     cfg = "Encode_quick.cfg" if ctx.quick else "Encode_thorough.cfg"
-    r = ctx.tlc("MCEncode", cfg, workers=4 if ctx.quick else 8, timeout=3000, xmx="8g")
+    r = ctx.tlc("MCEncode", cfg, workers=4 if ctx.quick else 6, timeout=3000, xmx="8g")
     if r.violated:
         ctx.spec_violation(r, "Encode.tla: %s violated by the transcription of the sinks' record mapping" % r.violated)
         return
@@ -115,19 +120,33 @@ def run(ctx):
         "serde_json decides JSON well-formedness; a strict reader (duplicate members, number text) does the projection",
         "values come from a seeded pool (type extremes, -0.0, subnormals, control / non-BMP characters, "
         "empty and long strings, error chains, serde+sval derived struct/enum), not from TLC",
-        "map keys: text, bool, i64, f64, byte strings, sequences; for byte-string / sequence keys the text form in "
-        "OTLP is not decided (non-empty, distinct, protobuf = JSON) and the file writer may refuse the event "
+        "map keys: text, bool, i64, f64, byte strings (computed and borrowed), sequences, null / None, Option, a map, a "
+        "compound key (null, bytes, bool, float, nested sequence, nested map); for every kind beyond text / bool / number "
+        "the text form in OTLP is not decided (distinct, non-empty except for the null key, protobuf = JSON, every value "
+        "found) and the file writer may refuse the event "
         "(sval_json cannot make a member name of them: no line, never a mangled one); well-known keys carry the "
-        "shapes they are defined for; "
+        "shapes they are defined for; a metric_value that is no number / sequence of numbers (null, None, bool, text, "
+        "sequence of texts, nested sequence, map, struct, unit variant) makes the sample a log record in OTLP (all its "
+        "properties as attributes); 128-bit typed integers whose value fits 64 bits: the integer or its decimal text; "
         "timestamps within the range OTLP can carry (u64 nanoseconds)",
         "not decided (statement silent): attribute order, is_monotonic / temporality, span status without err, "
-        "ids on metric samples, placement of metric points in a backwards range, enum variant wrapper, text form of non-text keys (must read back as the key), "
-        "rendering of NaN/Inf in JSON, terminal layout / colours (checked: module, level, kind, abbreviated ids, "
-        "message with the hole's value, error text and every cause in chain order)",
+        "ids on metric samples, placement of metric points in a backwards range, which record a metric sample with an "
+        "EMPTY sequence / map value becomes, enum variant wrapper, text form of non-text keys (must read back as the key), "
+        "rendering of NaN/Inf in JSON, terminal layout / colours / local time of day (checked: module, level, kind, abbreviated ids, "
+        "message with the hole's value, error text and every cause in chain order, and for an extent with a length a "
+        "number + unit denoting that length truncated to the unit shown, whichever unit)",
         "bounded: %s" % vlib.cfg_header(os.path.join(vlib.SPEC, cfg)),
     ]
     if rep["extra"].get("unattributed_file_lines"):
         ctx.violation("C13 file: %d lines that are not JSON objects with a module" % rep["extra"]["unattributed_file_lines"],
                       {"kind": "unattributed-lines"}, signature="C13:file-unattributed-lines")
+    witnessed = set()
     for m in rep["mismatches"]:
+        witnessed.add("%s | %s" % (m["what"], m["detail"].get("sig", "").split(" ev=")[0]))
         ctx.violation("C13 %s: %s" % (m["what"], json.dumps(m["detail"])[:400]), m, signature=_sig(m))
+    # a category whose witnesses did not fit into the (capped) report is still a violation of its own
+    for cat, n in sorted(rep["extra"].get("mismatch_categories", {}).items()):
+        if cat not in witnessed:
+            ctx.violation("C13 %s (%d outputs; no witness kept in the report)" % (cat, n),
+                          {"kind": "category-without-witness", "category": cat, "count": n},
+                          signature=_sig({"what": cat, "detail": {"sig": cat.split(" | ", 1)[-1]}}))
